@@ -92,4 +92,19 @@ TEXT["C05"] = {
             "over; model compared with bundle.Read on hand-assembled bundles with every length/offset/count field replaced "
             "by boundary values, sections reordered/duplicated/unknown/missing, truncation at every offset and bit flips.",
     "note": BUNDLE_NOTE}
+TEXT["C06"] = {
+    "text": "Theorems over the model of the signatures-section signer/verifier: signed-subset encode/decode round trip, "
+            "authority-index invariant over any sequence of signers, covered exchanges verify inside the window and yield "
+            "the original body, uncovered ones are unsigned, success binds header hash + MI-authenticated body; model "
+            "compared with the library on 1..3-signer histories with real ECDSA P-256/P-384 (oracle tables checked with "
+            "the standard library), before/after write->read, under exchange and signatures-section mutations and times.",
+    "note": SXG_NOTE + " CanSignForURL (x509 hostname check) is decided by the harness, not modelled."}
+TEXT["C07"] = {
+    "text": "Theorems over the model of the integrity-block signer: data-to-be-signed layout and injectivity, signature "
+            "added only if it verifies under the recorded key, stack invariant over any sequence of signing operations, "
+            "output = deterministic-CBOR block ++ untouched file, trailing-length checks, Web Bundle ID; model compared "
+            "with the library and the sign-bundle binary on generated files/keys/attribute maps/strategies.",
+    "note": COMMON_NOTE + "SHA-512 and Ed25519 are oracles/parameters in the theorems (Gallina SHA-512 for execution, "
+            "validated against crypto/sha512); Ed25519 sign/verify answers are per-case tables from the standard library; "
+            "os.File seek/stat modelled as size + last 8 bytes."}
 NOT_YET = {}
